@@ -3,12 +3,14 @@
 Families (each returns the standard dict; `input` of a failure is replayable through replay_input):
   sample   Sample objects from known arrays with distinguishable entries: d <= 3 parameters, n <= 4 samples (+ one n = 60 case
            that separates the 0.95 / 0.975 quantiles), every order of the parameter names, outputs holding extra keys in another
-           order, weights none / given (with a zero weight), discrepancy none / given.  Oracles written independently (python loops).
+           order, weights none / given (with a zero weight; given to the constructor, attached afterwards, or replacing
+           constructor weights - the reported statistics must follow the weights the object HOLDS), discrepancy none / given.  Oracles written independently (python loops).
   bolfi    BolfiSample from chains[c, t, j] = 10000 c + 100 t + j: C <= 3, N <= 6, d <= 3, every warm-up 0..N.
   save     save -> load round trips (pickle / JSON / CSV, stdlib readers) in a temp dir under /var/tmp, incl. numpy scalars / arrays in
            meta, a BolfiSample and an SmcSample with populations; direct calls of sample_object_to_dict / numpy_to_python_type.
   diag     gelman_rubin_statistic against an independently written textbook split R-hat; R-hat and ESS invariance under
-           x -> -3x+7 and under every permutation of the chains (C <= 4, N in 4..9, odd lengths included).
+           x -> -3x+7, under x -> a x + b on small and large scales (a in 1e-3 .. 1e-6, 1e3, 1e6, -1e-5; b in {0, 0.5}; each also against the
+           textbook formula on the transformed chains) and under every permutation of the chains (C <= 4, N in 4..9, odd lengths included).
 Floats: relative tolerance 1e-9 for diagnostics and means; file round trips are exact."""
 import csv
 import itertools
@@ -74,7 +76,11 @@ def build_sample(inp):
         outputs[k] = column(idx, n)
     pn = [NAMES[j] for j in order]
     w = make_weights(inp['weights'], n)
-    s = R.Sample('method', outputs, pn, discrepancy_name='disc' if inp['disc'] else None, weights=w, n_sim=np.int64(10 * n), threshold=np.float64(0.5))
+    attach = inp.get('attach', 'init')
+    w0 = w if attach == 'init' else (None if attach == 'after' else np.ones(n))
+    s = R.Sample('method', outputs, pn, discrepancy_name='disc' if inp['disc'] else None, weights=w0, n_sim=np.int64(10 * n), threshold=np.float64(0.5))
+    if attach != 'init':
+        s.weights = w           # weights attached / replaced after construction, as SMC._extract_population does for every population
     return s, outputs, pn, w
 
 
@@ -149,6 +155,9 @@ def sample_inputs(tier):
                         if n == 60 and (disc or order != tuple(reversed(range(d)))):
                             continue
                         yield dict(fn='sample', d=d, order=list(order), n=n, weights=wk, disc=disc)
+                        if wk != 'none' and not disc and n >= 2:
+                            for attach in ('after', 'replaced'):
+                                yield dict(fn='sample', d=d, order=list(order), n=n, weights=wk, disc=disc, attach=attach)
 
 
 def run_sample(tier, seed, stop_first=True):
@@ -395,6 +404,9 @@ def run_save(tier, seed, stop_first=True):
 
 
 # ---------------------------------------------------------------- diagnostics
+SCALES = (1e-3, 1e-4, 1e-5, 1e-6, 1e3, 1e6, -1e-5)
+
+
 def textbook_rhat(x):
     """split R-hat, BDA3 (11.4): written with python loops, no numpy reductions"""
     C, N = len(x), len(x[0])
@@ -413,8 +425,8 @@ def textbook_rhat(x):
 
 
 def diag_chains(inp):
-    if inp.get('gen') == 'formula':           # the fixed input of the finitised SMT run
-        return np.array([[(c + 1) * ((t * t) % 7) + c for t in range(inp['N'])] for c in range(inp['C'])], dtype=float)
+    if inp.get('gen') == 'formula':           # the fixed input of the finitised SMT run (times the scale of its counter-model)
+        return float(inp.get('scale', 1.0)) * np.array([[(c + 1) * ((t * t) % 7) + c for t in range(inp['N'])] for c in range(inp['C'])], dtype=float)
     if inp.get('values') is not None:
         return np.array(inp['values'], dtype=float)
     rs = np.random.RandomState(inp['seed'])
@@ -440,6 +452,20 @@ def check_diag(inp):
         e2 = float(M.eff_sample_size(y))
         if not _close(e2, e, 1e-7):
             return 'ESS not invariant under x -> -3x+7: %.12g vs %.12g' % (e2, e)
+        # affine maps on small and large scales: each compared with the independent textbook formula on the SAME transformed
+        # data and with the value on the original chains (a guard with an absolute tolerance breaks exactly this)
+        for a in SCALES:
+            for b in (0.0, 0.5):
+                z = a * x + b
+                rz = float(M.gelman_rubin_statistic(z.copy()))
+                tz = textbook_rhat(z.tolist())
+                if not _close(rz, tz, 1e-6):
+                    return 'x -> %g x + %g: gelman_rubin_statistic = %.12g, textbook split R-hat of the same chains = %.12g' % (a, b, rz, tz)
+                if not _close(rz, r, 1e-5):
+                    return 'R-hat not invariant under x -> %g x + %g: %.12g vs %.12g' % (a, b, rz, r)
+                ez = float(M.eff_sample_size(z.copy()))
+                if not _close(ez, e, 1e-5):
+                    return 'ESS not invariant under x -> %g x + %g: %.12g vs %.12g' % (a, b, ez, e)
         for perm in itertools.permutations(range(C)):
             xp = x[list(perm), :]
             if not _close(float(M.gelman_rubin_statistic(xp)), r, 1e-8):
